@@ -41,8 +41,9 @@ func consumeSingleTURNFrame(b []byte) (int, error) {
 
 	var datagramSize uint16
 	switch {
-	case stun.IsMessage(b):
-		datagramSize = binary.BigEndian.Uint16(b[2:4]) + stunHeaderSize
+	// The channel number is checked first: the first two bits of a STUN message are
+	// zero, so it can never look like a valid channel number, whereas the payload of
+	// a ChannelData frame may well carry the STUN magic cookie at offset 4.
 	case ChannelNumber(binary.BigEndian.Uint16(b[0:2])).Valid():
 		datagramSize = binary.BigEndian.Uint16(b[channelDataNumberSize:channelDataHeaderSize])
 		if paddingOverflow := (datagramSize + channelDataPadding) % channelDataPadding; paddingOverflow != 0 {
@@ -50,6 +51,8 @@ func consumeSingleTURNFrame(b []byte) (int, error) {
 		}
 
 		datagramSize += channelDataHeaderSize
+	case stun.IsMessage(b):
+		datagramSize = binary.BigEndian.Uint16(b[2:4]) + stunHeaderSize
 	case len(b) < stunHeaderSize:
 		return 0, errIncompleteTURNFrame
 	default:
